@@ -1070,6 +1070,11 @@ func (bf *Bitfield) Decode(d *Decoder) error {
 		return err
 	}
 
+	// bits beyond the last core carry no information and must be zero
+	if used := CoresCount % 8; used != 0 && bytes[AvailBitfieldBytes-1]>>used != 0 {
+		return errors.New("Bitfield has bits set beyond CoresCount")
+	}
+
 	*bf = bitfield
 	return nil
 }
